@@ -20,7 +20,7 @@ RULE = ("one evaluation = one seeded interleaving (<= 50 operations) of per-leve
         "parent restricted to the parent's selection and the manual-exclusion invariant is checked against the model's "
         "per-child sets of excluded root events. non-trivial = >=1 edit and >=1 comparison; distinct = distinct event-log digests")
 STATE_MEASURE = "distinct (depth, bitmask of levels edited since last refresh, hidden-exclusion count>0, cache-populated bitmask) tuples; actor sequences are part of the digest"
-PROBES = ["nonscalar_index_array_access", "index_array_refused_like_parent", "hidden_exclusion_came_back", "hidden_exclusion_present", "cache_populated_before_refresh", "temp_feature_on_child",
+PROBES = ["level_filter_reset", "same_exclusion_reentered", "nonscalar_index_array_access", "index_array_refused_like_parent", "hidden_exclusion_came_back", "hidden_exclusion_present", "cache_populated_before_refresh", "temp_feature_on_child",
           "temp_feature_on_root", "root_config_changed", "depth_3_or_more", "manual_on_mid_level", "ancestor_filter_changed_after_manual",
           "child_created_mid_history", "root_apply_without_refresh", "empty_child", "file_backed", "root_selection_moved_same_count"]
 COMPONENTS = {"real": ["dclab RTDC_Hierarchy, HierarchyFilter, index mappers, Child* feature wrappers", "dclab Filter, temporary features, ancillary features (time, area_um, deform)"],
@@ -123,8 +123,16 @@ class World:
 
     # ---------------- generation ----------------
     def gen_op(self, r):
+        redo = getattr(self, "redo_manual", None)
+        self.redo_manual = None
+        if redo is not None and redo[0] < len(self.levels) and r.random() < 0.75:
+            # right after reset_filter() the owner excludes exactly the same events again
+            return {"k": "manual", "lv": redo[0], "idx": list(redo[1])}
         lv = r.randrange(len(self.levels))           # the scheduler picks which owner acts
         x = r.random()
+        if x < 0.04 and getattr(self, "last_manual", {}):
+            lvr = r.choice(sorted(self.last_manual))
+            return {"k": "reset", "lv": lvr}
         if x < 0.20:
             f = r.choice(RANGE_FEATS)
             v = self.data[f]
@@ -188,10 +196,31 @@ class World:
                 self.polys[lv] = pf
             self.edited |= 1 << lv
             ctx.log(f"L{lv}", "poly", seeds.short_hash(pts))
+        elif k == "reset":
+            if lv != self.depth or lv == 0:
+                # (only the youngest child: a reset re-creates the level's filter arrays at once, without an apply; for the
+                #  levels below, positions would be undefined until the next refresh)
+                return
+            with ctx.sut("C04.reset_filter", sig={"level": min(lv, 2)}):
+                ds.reset_filter()
+            if lv >= 1:
+                self.excl[lv] = set()
+            self.polys.pop(lv, None)
+            self.edited |= 1 << lv
+            lm = getattr(self, "last_manual", {})
+            if lv in lm and self.synced:
+                self.redo_manual = (lv, lm[lv])
+            ctx.probe("level_filter_reset")
+            ctx.log(f"L{lv}", "reset")
         elif k == "manual":
             # positions refer to the level's current events: only when it is synchronised with its ancestors
             if not self.synced or len(ds) == 0:
                 return
+            if not hasattr(self, "last_manual"):
+                self.last_manual = {}
+            if self.last_manual.get(lv) == list(op["idx"]):
+                ctx.probe("same_exclusion_reentered")
+            self.last_manual[lv] = list(op["idx"])
             n_l = len(ds)
             idx = sorted({i % n_l for i in op["idx"]})
             ds.filter.manual[idx] = False
